@@ -209,6 +209,8 @@ kf("C11", "C11-builtin-result-discarded", "a call statement that discards the re
    ["C11|G:must-use-discarded(must-use:builtin)|accepted|*"])
 kf("C11", "C11-vector-unknown-element-type", "`vec2<ZzUnknownType>()` (a vector constructor whose element type does not exist) is accepted; the same type in a `var t: vec2<ZzUnknownType>` annotation is rejected",
    ["C11|G:unknown-type(type:vector-element)|accepted|*-ctor-type/*"])
+kf("C11", "C11-let-type-annotation-ignored", "the type annotation of a function-scope `let` is never resolved: `let t: ZzUnknownType = array<i32, 4>(1, 2, 3, 4);`, `let t: array<i32, 0> = ...`, `let t: array<i32, KZ> = ...` (const KZ = 0) and even `let t: f32 = 1u;` compile (the same types on a `var` are rejected)",
+   ["C11|G:unknown-type(*|accepted|let-type/*", "C11|G:array-size-zero(*|accepted|let-type/*"])
 kf("C11", "C11-forward-call-inside-bitcast", "a call inside `bitcast<T>(...)` is invisible to the declaration-order analysis: in an entry point written before the callee, `bitcast<i32>(f1())` / `bitcast<i32>(f1(1, 2))` for `fn f1(a: i32) -> i32` compiles (no argument count/type check), and `bitcast<i32>(fp(1))` for a pointer parameter fails only in ir.Validate, without a source position (in a helper function the valid call fails in the SPIR-V backend: 'function 1 not found in functionIDs')",
    ["C11|G:call-arg-count(*|accepted|bitcast/*/entry/decls-after", "C11|G:call-arg-type(*|accepted|bitcast/*/entry/decls-after", "C11|G:call-arg-type(call-ptr:ptr<-literal)|no-position|bitcast/*/entry/decls-after"])
 
